@@ -352,6 +352,9 @@ func mutateView(r *Rng, v []*MNode, o TreeOpts) []*MNode {
 				c.Stat.Mode = (c.Stat.Mode &^ 0777) | 0700
 			case x == 3:
 				c.Stat.Uid = 7
+			case x == 8 && (n.IsDir() || os.FileMode(n.Stat.Mode)&os.ModeType == 0):
+				// ONLY a special bit differs (setuid / setgid / sticky set or cleared): size, mtime, permission equal
+				c.Stat.Mode ^= uint32(Pick(r, []os.FileMode{os.ModeSetuid, os.ModeSetgid, os.ModeSticky}))
 			case x == 4 && os.FileMode(n.Stat.Mode)&os.ModeType == 0:
 				c.Content = append(c.Content, 'x')
 				c.Stat.Size = int64(len(c.Content))
